@@ -270,6 +270,7 @@ def run(ctx):
             break
         net = netkit.gen_network(rng)
         net["save_every"] = rng.choice([1, 1, 2, 3])
+        netkit.maybe_sub_second_start(net, rng)
         if len(net["sensors"]) >= 2 and len(net["targets"]) >= 2 and rng.random() < 0.3:
             net["split_engines"] = True
             ctx.count("nets_with_two_engines")
